@@ -104,9 +104,15 @@ var reflectiveWrites = map[string][]int{
 	"github.com/pelletier/go-toml.Unmarshal": {1}, "(*github.com/pelletier/go-toml.Tree).Unmarshal": {1}, "(*github.com/pelletier/go-toml.Decoder).Decode": {1},
 }
 
+var effectsMemo = map[*Ctx]*Effects{}
+
 func NewEffects(c *Ctx) *Effects {
+	if e, ok := effectsMemo[c]; ok {
+		return e // summaries are read-only once built
+	}
 	e := &Effects{c: c, sum: map[*ssa.Function]*FSum{}, callees: map[ssa.CallInstruction][]*ssa.Function{}}
 	e.build()
+	effectsMemo[c] = e
 	return e
 }
 
